@@ -512,7 +512,7 @@ fn run_b(c: &mut Case, iterations: usize) {
 
 pub fn run(ctx: &Ctx, evidence: Option<&PathBuf>) -> i32 {
     let big = ctx.scale == Scale::Full;
-    ctx.run_fixed("directed", 300, |c| run_a(c, c.index % 4 == 0 && big));
+    ctx.run_fixed("directed", ctx.dn(300), |c| run_a(c, c.index % 4 == 0 && big));
     let n = ctx.size(30_000, 3_000_000);
     ctx.run_cases("writers", n, |c| {
         let b = big && c.rng.chance(1, 6);
